@@ -2,10 +2,12 @@ import Mathlib.Tactic.Set
 import NoteSeqVerif.Proofs.C18Float
 import NoteSeqVerif.Proofs.C18Enc
 import NoteSeqVerif.Proofs.C18EncB
+import NoteSeqVerif.Proofs.C18EncC
 import NoteSeqVerif.Proofs.C18Snap
 import NoteSeqVerif.Proofs.C18Dec
 /-! C18 — property theorems (DESIGN 6.18).  Helper lemmas live in `Proofs/C18*.lean`
-(`enc_active_cell`, the generic active-roll formula, is in `Proofs/C18Enc.lean`; the float lemmas
+(`enc_active_cell`, the generic active-roll formula, is in `Proofs/C18Enc.lean`; the vocabulary `wUpd`, `noteW`,
+`ccHits` of the weights / control-change formulas in `Proofs/C18EncC.lean`; the float lemmas
 `timeToFrames_grid`, `numRows_grid` and the structure `Rounding` in `Proofs/C18Float.lean`).
 
 `R` = rounding after every float64 operation (`rne53` in the driver), `R32` = float32 store,
@@ -221,6 +223,124 @@ theorem encode_unknown_mode (R R32 : Rat → Rat) (eps : Rat) (c : Cfg) (total :
   · rw [encNotes_bad_mode R R32 eps c total _ h0 h1 _ _ (by
       obtain ⟨nt, hnt, hr⟩ := hex
       exact ⟨nt, (mem_sortByStart nt notes).mpr hnt, hr⟩)]
+
+/-- **no exception on a well-formed input** (any rounding that keeps non-negative values
+non-negative, any `eps`, window, onset/offset lengths, delay — also negative —, occupancy, both
+`onset_overlap` values, with or without the blank frame, notes in any order, note ends / total time
+unrelated): `sequence_to_pianoroll` returns a roll whenever the frame rate and the total time are not
+negative, the pitch range is not inverted, the onset mode is known, `max_velocity ≠ 0`, every
+in-range note starts at a time ≥ 0 with `velocity ≤ max_velocity`, and every control change has a
+time ≥ 0 and a controller number in 0..127.  (F-C18-2, F-C18-3 and F-C18-4 were exceptions on such
+inputs; `encode_ok_valid` / `encode_unknown_mode` are the converse for velocity and mode.) -/
+theorem encode_defined {R : Rat → Rat} (hR0 : ∀ x : Rat, 0 ≤ x → 0 ≤ R x) (R32 : Rat → Rat) (eps : Rat)
+    (c : Cfg) (total : Rat) (notes : List PNote) (ccs : List PCC)
+    (hfps : 0 ≤ c.fps) (htot : 0 ≤ total) (hp : c.minPitch ≤ c.maxPitch + 1)
+    (hm : c.mode = 0 ∨ c.mode = 1) (hmv : c.maxVelocity ≠ 0)
+    (hn : ∀ nt ∈ notes, InRange c nt → 0 ≤ nt.start ∧ nt.velocity ≤ c.maxVelocity)
+    (hc : ∀ cc ∈ ccs, 0 ≤ cc.time ∧ 0 ≤ cc.number ∧ cc.number < 128) :
+    ∃ pr, encode R R32 eps c total notes ccs = .ok pr := by
+  unfold encode
+  simp only
+  have hrows : 0 ≤ numRows R c.fps total := by
+    unfold numRows
+    have h1 : 0 ≤ R (total * c.fps) := hR0 _ (mul_nonneg htot hfps)
+    have h2 : 0 ≤ R (R (total * c.fps) + 1) := hR0 _ (by linarith)
+    rw [truncR_of_nonneg _ h2]; exact floor_nonneg_of_nonneg _ h2
+  rw [if_neg (by omega)]
+  obtain ⟨st, hst⟩ := encNotes_defined R R32 eps c total (numRows R c.fps total).toNat hm hmv (sortByStart notes)
+    (fun nt h hr => (hn nt ((mem_sortByStart nt notes).mp h) hr).2)
+    (fun nt h hr _ => by
+      have := (framesFromTimes_nonneg hR0 eps c.fps c.occ nt.start nt.end_ hfps
+        (hn nt ((mem_sortByStart nt notes).mp h) hr).1).2
+      omega)
+    (initRolls (numRows R c.fps total).toNat (c.maxPitch - c.minPitch + 1).toNat)
+  rw [hst]
+  obtain ⟨m, hm'⟩ := encCCs_defined R eps c (numRows R c.fps total).toNat (sortCCs ccs)
+    (fun cc h => by
+      have hcc := hc cc ((mem_sortBy _ cc ccs).mp h)
+      exact ⟨(framesFromTimes_nonneg hR0 eps c.fps c.occ cc.time 0 hfps hcc.1).1, hcc.2⟩)
+    (List.replicate (numRows R c.fps total).toNat (List.replicate 128 0))
+  rw [hm']
+  exact ⟨_, rfl⟩
+
+/-! ### offsets, weights and control-change rolls; sizes of the remaining rolls -/
+
+/-- **offsets roll** (any rounding, any parameters): a cell is 1 exactly when some in-range note's
+offset span contains it -/
+theorem enc_offset_cell {R R32 : Rat → Rat} {eps : Rat} {c : Cfg} {total : Rat} {notes : List PNote}
+    {ccs : List PCC} {pr : Pianoroll} (h : encode R R32 eps c total notes ccs = .ok pr) (f p : Nat)
+    (hf : f < (numRows R c.fps total).toNat) (hp : p < (c.maxPitch - c.minPitch + 1).toNat) :
+    getCell pr.offsets f p = some
+      (if ∃ nt ∈ notes, NoteCovers R eps c total (numRows R c.fps total).toNat (selOffset c) f p nt = true
+       then 1 else 0) := by
+  obtain ⟨_, _, st, hst, _, _, _, ho, _⟩ := encode_ok h
+  rw [ho, encNotes_cell R R32 eps c total _ _ (·.offsets) (selOffset c)
+    (step_offsets R R32 eps c total _) _ _ st hst 0 rfl f p hf hp]
+  rw [foldl_sel_const _ _ _ 1 0]
+  · congr 1
+    simp only [mem_sortByStart]
+  · intro a _ hc
+    unfold NoteCovers at hc
+    unfold noteVal
+    cases hop : noteOp R eps c total (numRows R c.fps total).toNat (selOffset c) a with
+    | none => rw [hop] at hc; cases hc
+    | some op =>
+      obtain ⟨_, nf, _, rfl⟩ := (noteOp_some_iff _ _ _ _ _ _ _ _).mp hop
+      rfl
+
+/-- **weights roll** (any rounding, any parameters, with or without the blank frame): a cell starts at
+1 and every note of its pitch, in start order, applies `wUpd` to it: `onset_upweight` in the note's
+onset frames, `onset_upweight / (j + 1)` in the `j`-th frame after them up to the note's end frame
+(the frames past the end of the roll are simply absent — the list is clipped like the slice),
+1 in the blanked frame before the note, unchanged elsewhere -/
+theorem enc_weights_cell {R R32 : Rat → Rat} {eps : Rat} {c : Cfg} {total : Rat} {notes : List PNote}
+    {ccs : List PCC} {pr : Pianoroll} (h : encode R R32 eps c total notes ccs = .ok pr) (f p : Nat)
+    (hf : f < (numRows R c.fps total).toNat) (hp : p < (c.maxPitch - c.minPitch + 1).toNat) :
+    getCell pr.weights f p = some
+      ((sortByStart notes).foldl (noteW R R32 eps c total (numRows R c.fps total).toNat f p) 1) := by
+  obtain ⟨st, _, hst, _, hw, _⟩ := encode_ok_all h
+  rw [hw, encNotes_weights_cell _ _ st hst (by simp [initRolls]) f p hf]
+  have : getCell (initRolls (numRows R c.fps total).toNat (c.maxPitch - c.minPitch + 1).toNat).weights f p = some 1 :=
+    getCell_replicate _ _ 1 f p hf hp
+  rw [this]; rfl
+
+/-- **control-change roll** (any rounding): a cell starts at 0 and holds `control_value + 1` of the LAST
+control change in time order (`sorted(..., key=time)`, stable) that falls into its frame with its
+controller number; control changes at or past the last frame are ignored -/
+theorem enc_cc_cell {R R32 : Rat → Rat} {eps : Rat} {c : Cfg} {total : Rat} {notes : List PNote}
+    {ccs : List PCC} {pr : Pianoroll} (h : encode R R32 eps c total notes ccs = .ok pr) (f k : Nat)
+    (hf : f < (numRows R c.fps total).toNat) (hk : k < 128) :
+    getCell pr.controlChanges f k = some
+      ((sortCCs ccs).foldl (fun x cc =>
+        if ccHits R eps c (numRows R c.fps total).toNat f k cc then cc.value + 1 else x) 0) := by
+  obtain ⟨_, cc, _, hcc, _, _, hc, _⟩ := encode_ok_all h
+  rw [hc, encCCs_cell R eps c _ _ _ cc hcc f k]
+  have : getCell (List.replicate (numRows R c.fps total).toNat (List.replicate 128 (0 : Int))) f k = some 0 :=
+    getCell_replicate _ _ 0 f k hf hk
+  rw [this]; rfl
+
+/-- **roll size** (with `roll_length`): the remaining four rolls also have `int(total_time · fps + 1)` frames -/
+theorem roll_size {R R32 : Rat → Rat} {eps : Rat} {c : Cfg} {total : Rat} {notes : List PNote}
+    {ccs : List PCC} {pr : Pianoroll} (h : encode R R32 eps c total notes ccs = .ok pr) :
+    pr.weights.length = (numRows R c.fps total).toNat ∧ pr.offsets.length = (numRows R c.fps total).toNat ∧
+    pr.onsetVelocities.length = (numRows R c.fps total).toNat ∧
+    pr.controlChanges.length = (numRows R c.fps total).toNat := by
+  obtain ⟨st, cc, hst, hcc, hw, ho, hc, hov, _, _⟩ := encode_ok_all h
+  have hon : st.onsets.length = (numRows R c.fps total).toNat := by
+    rw [encNotes_proj R R32 eps c total _ (·.onsets) (selOnset c)
+      (step_onsets R R32 eps c total _) _ _ st hst, length_foldl_paintOp]
+    simp [initRolls]
+  have hvl : st.vels.length = (numRows R c.fps total).toNat := by
+    rw [encNotes_proj R R32 eps c total _ (·.vels) (selVel R R32 c)
+      (step_vels R R32 eps c total _) _ _ st hst, length_foldl_paintOp]
+    simp [initRolls]
+  refine ⟨?_, ?_, ?_, ?_⟩
+  · rw [hw, encNotes_weights_length _ _ _ hst]; simp [initRolls]
+  · rw [ho, encNotes_proj R R32 eps c total _ (·.offsets) (selOffset c)
+      (step_offsets R R32 eps c total _) _ _ st hst, length_foldl_paintOp]
+    simp [initRolls]
+  · rw [hov, List.length_zipWith, hvl, hon]; simp
+  · rw [hc, encCCs_length R eps c _ _ _ cc hcc]; simp
 
 /-! ## pianoroll_to_note_sequence -/
 
@@ -774,6 +894,37 @@ example : errName (encode id id Gen.SNAP_EPS { exC with mode := 7 } 1 exNotes []
   decide +kernel
 example : errName (encode id id Gen.SNAP_EPS { exC with maxVelocity := 100 } 1 exNotes []) = "ValueError" := by
   decide +kernel
+-- encode_defined: its hypotheses hold for the inputs of F-C18-3 / F-C18-4 (here in exact arithmetic): a
+-- delayed onset with onset_overlap = False and the blank frame, whose start frame lies past the roll; a note
+-- starting at total_time with a negative delay and full-frame occupancy. Both now encode to a roll.
+def exC4 : Cfg := { exC with fps := 50, maxPitch := 75, blank := true, window := 0, onsetLenMs := 10, offsetLenMs := 10,
+                             mode := 1, delayMs := 120, overlap := false }
+def exC3 : Cfg := { exC with fps := 125 / 4, minPitch := 36, maxPitch := 36, delayMs := -300, occ := 1, overlap := false }
+example : (∀ x : Rat, 0 ≤ x → 0 ≤ id x) ∧ 0 ≤ exC4.fps ∧ exC4.minPitch ≤ exC4.maxPitch + 1 ∧ exC4.mode = 1 ∧
+    exC4.maxVelocity ≠ 0 := ⟨fun _ h => h, by decide +kernel, by decide +kernel, rfl, by decide +kernel⟩
+example : isOk (encode id id Gen.SNAP_EPS exC4 (9 / 50) [⟨60, 78, 1 / 10, 9 / 50⟩] []) = true := by decide +kernel
+example : isOk (encode id id Gen.SNAP_EPS exC3 (3 / 5) [⟨36, 46, 3 / 5, 3 / 5⟩, ⟨36, 1, 32 / 125, 17 / 40⟩] []) = true := by
+  decide +kernel
+-- enc_weights_cell / enc_offset_cell / roll_size: the note 60@[1/40, 9/200) at 100 fps has onset frames 1..3
+-- (weight 5) and frame 4 after them (weight 5/1), its offset in frame 4; the later note of the same pitch has
+-- onset frames 3..5 and its offset in frame 6; all seven rolls have 101 frames
+example : (match encode id id Gen.SNAP_EPS exC 1 exNotes [] with
+  | .ok pr => getCell pr.weights 1 0 == some 5 && getCell pr.weights 5 0 == some 5 && getCell pr.weights 6 0 == some 1 &&
+      getCell pr.weights 0 0 == some 1 && getCell pr.offsets 4 0 == some 1 && getCell pr.offsets 5 0 == some 0 &&
+      getCell pr.offsets 6 0 == some 1 &&
+      pr.weights.length == 101 && pr.offsets.length == 101 && pr.onsetVelocities.length == 101 &&
+      pr.controlChanges.length == 101
+  | .error _ => false) = true := by decide +kernel
+-- a long note at a high rate: the decaying weights 5/1, 5/2, 5/3 … after the onset frames, clipped at the roll's end
+example : (match encode id id Gen.SNAP_EPS exC (1 / 20) [⟨60, 100, 0, 1⟩] [] with
+  | .ok pr => getCell pr.weights 1 0 == some 5 && getCell pr.weights 2 0 == some 5 &&
+      getCell pr.weights 3 0 == some (5 / 2) && getCell pr.weights 5 0 == some (5 / 4) && pr.weights.length == 6
+  | .error _ => false) = true := by decide +kernel
+-- enc_cc_cell: two control changes of one controller in one frame stored out of time order — the later one wins;
+-- a control change past the last frame is ignored
+example : (match encode id id Gen.SNAP_EPS exC (1 / 10) [] [⟨13 / 250, 64, 127⟩, ⟨51 / 1000, 64, 0⟩, ⟨1, 64, 5⟩] with
+  | .ok pr => getCell pr.controlChanges 5 64 == some 128 && getCell pr.controlChanges 5 63 == some 0
+  | .error _ => false) = true := by decide +kernel
 -- roll_roundtrip_notes_*: separated grid notes (frames [1,3) and [4,6) of pitch 0, [0,2) of pitch 1) at 100 fps
 def exGrid : List Emit := [⟨0, 1, 3, 90⟩, ⟨1, 0, 2, 64⟩, ⟨0, 4, 6, 127⟩]
 example : (match encode id id Gen.SNAP_EPS exC (7 / 100)
